@@ -12,9 +12,11 @@
     adjacent_not_transparent backslash_not_transparent placeholder_text_raises percent_raises
     drop_nested_unbalanced fragments_looked_up_not_extracted
     default_cfg_include_attrs i18n_directives_sort_first contexted_table
+    lookups_subset_extract_partial
 -/
 import Genshi.Lemmas.I18nTree
 import Genshi.Lemmas.I18nStarts
+import Genshi.Lemmas.I18nLookups
 import Genshi.Model.I18nExtract
 namespace Genshi.Props.C19
 open Genshi Genshi.I18n
@@ -127,6 +129,37 @@ theorem contexted_table :
 /-- the directive list of a SUB event is only permuted by the pass (domain first, context next). -/
 theorem reorder_is_permutation (ds : List Dir) : (reorder ds).dirs.Perm ds := reorder_perm ds
 
+
+/-! ## look-ups ⊆ extraction -/
+
+/-- **lookups_subset_extract, text / attribute traversal.**
+    Full statement: every message id containing a letter that rendering passes to the
+    catalogue is among the messages `Translator.extract` reports for the same stream.
+    Proved here, by a simultaneous induction over `Translator.__call__` and
+    `Translator.extract` with the skip counter shared, for every template stream none of whose
+    SUB events carries a message directive (msg / choose) — any nesting of py: directives,
+    i18n:domain / ctxt / comment (including the loops that edit the directive list under
+    their own iterator), ignored tags, xml:lang, any configuration, any context: extraction
+    never raises, and every id the translation pass looks up (text nodes and included
+    attributes) is extracted unless it has no letter.
+    Missing for the full statement: the look-ups made for message directives while rendering
+    (`msgId` = `format()` of the same buffer that `MsgDirective.extract` fills: tied by
+    correspondence and by `translate_format_id`) and the fragment-wise look-ups inside them
+    (finding C19-fragments: `fragments_looked_up_not_extracted`). -/
+theorem lookups_subset_extract_partial (cfg : Cfg) (ctx : Ctx) (s : TStream) (h : noMsgList s = true) :
+    ∃ ms, extract cfg s = .ok ms ∧
+      ∀ l ∈ lookups cfg ctx true true s, hasLetter l.msgid = true → l.msgid ∈ idsOf ms :=
+  lookups_subset_extract_noMsg cfg ctx s h
+
+example : noMsgList
+    [.start ⟨[], ['p']⟩ [(⟨[], ['t','i','t','l','e']⟩, .str ['T','i','p'])], .text [' ', 'H', 'i', ' '],
+     .sub [.other ['i','f'], .ctxt ['m']] [.start ⟨[], ['b']⟩ [], .text ['x', '1'], .end_ ⟨[], ['b']⟩],
+     .end_ ⟨[], ['p']⟩] = true ∧
+    (lookups Cfg.default [] true true
+      [.start ⟨[], ['p']⟩ [(⟨[], ['t','i','t','l','e']⟩, .str ['T','i','p'])], .text [' ', 'H', 'i', ' '],
+       .sub [.other ['i','f'], .ctxt ['m']] [.start ⟨[], ['b']⟩ [], .text ['x', '1'], .end_ ⟨[], ['b']⟩],
+       .end_ ⟨[], ['p']⟩]).map Lookup.msgid = [['T','i','p'], ['H','i'], ['x','1']] := by
+  refine ⟨by decide +kernel, by decide +kernel⟩
 
 /-! ## the message format: `parse_msg`, `MessageBuffer`, `MsgDirective` -/
 
